@@ -328,3 +328,95 @@ def check(v):
         graphreplay.replay(v, 'Lease', 'Lease_acts.cfg', RealLease, _apply, _compare, _state, prop='C14', label='leaseacts', describe=desc)
     finally:
         rsocket.lease.datetime = saved
+
+
+# ---------------------------------------------------------------------------------------------------------------------------------
+# LeaseAnnounce.tla: the responder side - a real server with a lease publisher, on the simulated link
+
+class RealAnnounce:
+    def __init__(self):
+        import logging
+        logging.disable(logging.CRITICAL)
+        from ..harness import prog
+        self.ex = prog.Exec({'mode': 'tcp', 'honor_lease_c': True, 'read_buffer': 1024, 'keepalive_ms': 600000, 'lifetime_ms': 6000000})
+        self.ex.do(['start'])
+        self.ex.do(['pump'])
+        self.n0 = len(self.ex.w.rec.events)
+
+    def publish(self, g):
+        self.ex.do(['lease', int(g[0]), int(g[1])])
+
+    def block(self):
+        self.ex.do(['gate_close', 's'])
+
+    def unblock(self):
+        self.ex.do(['gate_open', 's'])
+
+    def run(self):
+        self.ex.do(['pump'])
+
+    def observe(self):
+        pub, wire, rx = [], [], []
+        for e in self.ex.w.rec.events[self.n0:]:
+            if e['ev'] == 'app_lease':
+                pub.append((e['n'], e['x']))
+            elif e['ev'] == 'tx' and e['ep'] == 's' and e['ft'] == 'LEASE':
+                wire.append((e['n'], e['x']))
+            elif e['ev'] == 'rx' and e['ep'] == 'c' and e['ft'] == 'LEASE':
+                rx.append((e['n'], e['x']))
+        return pub, wire, rx
+
+    def close(self):
+        try:
+            self.ex.w.close()
+        except BaseException:
+            pass
+
+
+def _astate(vs):
+    a = tlc.parse_value(vs['a'])
+    return {'published': [tuple(x) for x in a['published']], 'wire': [tuple(x) for x in a['wire']], 'queued': [tuple(x) for x in a['queued']],
+            'blocked': a['blocked']}
+
+
+def _aapply(real, name, args, before):
+    if name == 'Publish':
+        real.publish(args[0])
+    elif name == 'Block':
+        real.block()
+    elif name == 'Unblock':
+        real.unblock()
+    elif name == 'Run':
+        real.run()
+    else:
+        raise common.Machinery('unknown LeaseAnnounce action %r' % name)
+    return None
+
+
+def _acompare(real, exp, obs):
+    pub, wire, rx = real.observe()
+    # oracle (C14): what is on the wire is a prefix of what was published, in order, values intact (count, ttl in ms)
+    if wire != pub[:len(wire)]:
+        return ('C14.leases_announced_in_publication_order' if sorted(wire) == sorted(pub[:len(wire)]) else 'C14.lease_frame_faithful',
+                'published %r, LEASE frames on the wire %r' % (pub, wire))
+    if not exp['blocked'] and not exp['queued'] and wire != pub:
+        return ('C14.lease_frame_faithful', 'published %r, the transport accepts writes and the loop has run: on the wire only %r' % (pub, wire))
+    if pub != exp['published']:
+        return ('DRIFT', 'published %r, the specification says %r' % (pub, exp['published']))
+    # (while the transport is blocked one frame may already be inside the write: the wire may be one ahead of the model or behind it)
+    if not exp['blocked'] and wire != exp['wire']:
+        return ('DRIFT', 'on the wire %r, the specification says %r' % (wire, exp['wire']))
+    return None
+
+
+def check_announce(v):
+    r = tlc.run('LeaseAnnounce', 'LeaseAnnounce.cfg', workers=2, timeout=600, name='lease_announce')
+    if r.timed_out or not r.finished:
+        raise common.Machinery('TLC did not finish on LeaseAnnounce: %s' % r.out[-1500:])
+    if r.violated:
+        v.add_failure('C14.design_%s' % r.violated, {'model': 'LeaseAnnounce'}, 'TLC: %s violated in the lease announcement model' % r.violated)
+    v.add('states', r.distinct)
+    v.add('transitions', r.generated)
+    v.coverage.setdefault('mc_configs', {})['LeaseAnnounce.cfg'] = {'states': r.distinct, 'transitions': r.generated, 'depth': r.depth, 'wall_s': round(r.wall, 1)}
+    desc = lambda s: 'published=%s wire=%s queued=%s blocked=%s' % (s['published'], s['wire'], s['queued'], s['blocked'])
+    graphreplay.replay(v, 'LeaseAnnounce', 'LeaseAnnounce.cfg', RealAnnounce, _aapply, _acompare, _astate, prop='C14', label='leaseannounce', describe=desc)
